@@ -54,6 +54,7 @@ type storeState struct {
 	resume  chan struct{}
 	busy    bool // flusher is handling a tick
 	parked  bool // flusher waits for the exclusive lock
+	lazy    bool // ... the lock is free again but the flusher has not been given the CPU yet (Knobs.LazyWake)
 	pending bool // a tick arrived while busy (ticker channel capacity 1)
 	exited  bool // flusher goroutine was told to stop / store closed
 	killed  bool
@@ -497,6 +498,7 @@ func (w *World) Advance(ms int) {
 		if !st.auto || st.exited || st.killed {
 			continue
 		}
+		w.settle(st)
 		due := (w.ClockMs-st.openedAt)/tickPeriodMs - st.ticksSeen
 		if due <= 0 {
 			continue
@@ -544,6 +546,10 @@ func (w *World) hookLock(fs *storage.VerifStore, op int) {
 		return
 	}
 	w.h(4, uint64(st.id), uint64(op), b2u(w.cur != nil))
+	if w.cur == nil && (op == storage.VerifLockWantShared || op == storage.VerifLockWantExcl) {
+		// the waiting flusher is first in line for the lock
+		w.settle(st)
+	}
 	switch op {
 	case storage.VerifLockWantShared:
 		if st.writer {
@@ -565,8 +571,13 @@ func (w *World) hookLock(fs *storage.VerifStore, op int) {
 			w.sessLocks--
 		}
 		if st.readers == 0 && st.parked {
-			w.count("flusher_resumed_after_stmt")
-			w.runFlusher(st)
+			if w.Knobs.LazyWake && w.cur == nil {
+				st.lazy = true
+				w.count("flusher_wake_deferred")
+			} else {
+				w.count("flusher_resumed_after_stmt")
+				w.runFlusher(st)
+			}
 		}
 		w.yieldPoint()
 	case storage.VerifLockWantExcl:
@@ -604,6 +615,16 @@ func (w *World) hookLock(fs *storage.VerifStore, op int) {
 	}
 }
 
+// settle runs a flusher whose wake-up was deferred (Knobs.LazyWake).
+func (w *World) settle(st *storeState) {
+	if st.lazy && st.parked && st.readers == 0 && !st.writer && w.cur == nil {
+		st.lazy = false
+		w.count("flusher_resumed_late")
+		w.runFlusher(st)
+	}
+	st.lazy = false
+}
+
 func (w *World) hookClose(fs *storage.VerifStore) {
 	atomic.AddInt64(&Progress, 1)
 	st := w.byFS[fs]
@@ -611,6 +632,7 @@ func (w *World) hookClose(fs *storage.VerifStore) {
 		return
 	}
 	w.h(5, uint64(st.id))
+	w.settle(st)
 	if st.parked {
 		w.abort(w.Prop, "O-live", "store closed while its flusher waits for a lock this task holds: deadlock", map[string]string{"kind": "deadlock-close"})
 		return
